@@ -77,6 +77,19 @@ def check_case(case):
                    name=name, library=val)
             return True, ("self_named",)
         return False, ("unverified_name",)
+    if k == "unlisted":
+        # a standard name the table does not list: either it is not offered there, or - if the
+        # table answers anyway - the value is the T10 value of that name
+        t, name = case["table"], case["name"]
+        try:
+            val = getattr(tables[t], name).value
+        except AttributeError:
+            return True, ("unlisted_not_offered",)
+        except Exception as e:  # noqa
+            raise Violation("exc:%s@lookup_unlisted" % type(e).__name__, {"table": t, "name": name})
+        want = {T10.TABLES[x][name] for x in T10.TABLES if name in T10.TABLES[x]}
+        expect(val in want, "mismatch:unlisted_name_resolves_to_wrong_value", table=t, name=name, got=val, t10=sorted(want))
+        return True, ("unlisted_resolved",)
     if k == "sa":
         t, name, sa = case["table"], case["name"], case["sa"]
         with lib("lookup"):
@@ -192,6 +205,12 @@ def cases():
             op = getattr(tables[t], name)
             for sa in sorted(op.serviceaction.keys):
                 yield "table:" + t, {"kind": "sa", "table": t, "name": name, "sa": sa}
+    allnames = sorted({n for x in T10.TABLES.values() for n in x})
+    for t in TABLE_NAMES:
+        listed = set(tables[t].keys)
+        for name in allnames:
+            if name not in listed:
+                yield "table:" + t, {"kind": "unlisted", "table": t, "name": name}
     for name in sorted(ec.SCSI_STATUS.keys):
         yield "status", {"kind": "status", "name": name}
     for enum in ("OPCODE", "SERVICE_ACTION_IN"):
